@@ -66,7 +66,16 @@ type verdict struct {
 
 const rangeSize = 0x4000
 
-func runCase(c *ncase, r *res.Result) *verdict {
+func runCase(c *ncase, r *res.Result) (v *verdict) {
+	defer func() {
+		if p := recover(); p != nil {
+			v = &verdict{"C02", "nat:panic", fmt.Sprintf("the NAT panicked: %v", p), len(c.Steps) - 1}
+		}
+	}()
+	return runCase1(c, r)
+}
+
+func runCase1(c *ncase, r *res.Result) *verdict {
 	atomic.StoreInt64(&vclock, 0)
 	base := time.Unix(1_000_000_000, 0)
 	vnet.VerifSetNow(func() time.Time { return base.Add(time.Duration(atomic.LoadInt64(&vclock))) })
